@@ -30,9 +30,18 @@ func init() {
 		return
 	}
 	// what a host program does
-	if os.Getenv("VERIF_PUB_APP") == "rotate" {
+	switch os.Getenv("VERIF_PUB_APP") {
+	case "rotate":
 		OpenAndRotate()
-	} else {
+	case "late-open":
+		// many counters are used (package initialisers, flag parsing) before
+		// the program gets to open the counter file: the open flushes them
+		// all, extending the file several times on the way
+		for i := 0; i < 700; i++ {
+			Inc(fmt.Sprintf("verif/early/%d/%s", i, strings.Repeat("e", i%90)))
+		}
+		Open()
+	default:
 		Open()
 	}
 	Inc("verif/a")
@@ -116,7 +125,7 @@ func TestVerifPublic(t *testing.T) {
 		home, _ := os.MkdirTemp(base, "h")
 		tdir := filepath.Join(home, "go", "telemetry")
 		local := filepath.Join(tdir, "local")
-		hostMode := verifrt.Pick(rnd, []string{"open", "rotate"})
+		hostMode := verifrt.Pick(rnd, []string{"open", "rotate", "late-open"})
 		if i%4 == 3 {
 			// ---- mode off
 			os.MkdirAll(tdir, 0o777)
@@ -352,6 +361,7 @@ func TestVerifPublic(t *testing.T) {
 		c05.Eval()
 		c05.Distinct(state)
 		c05.Hit("state:" + state)
+		c05.Hit("host:" + hostMode)
 		rp := verifrt.CaseReplay(i, map[string]any{"state": state, "host": hostMode})
 		if err != nil || !strings.Contains(out, "HOST-OK") {
 			sig := "host-crashed:" + state
@@ -365,7 +375,7 @@ func TestVerifPublic(t *testing.T) {
 		}
 		os.RemoveAll(home)
 	}
-	c05.Require("state:dir-missing", "state:local-is-file", "state:own-file-links", "state:own-file-limit", "state:own-file-random", "state:healthy-rerun", "own-file-damaged")
+	c05.Require("host:late-open", "state:dir-missing", "state:local-is-file", "state:own-file-links", "state:own-file-limit", "state:own-file-random", "state:healthy-rerun", "own-file-damaged")
 	c02.Require("mode-off-run", "populated-dir", "strace-witness", "witness-sees-counter-file-creation", "syscalls-under-telemetry-dir")
 	for _, r := range []*verifrt.Result{c05, c02} {
 		if err := r.Write(); err != nil {
